@@ -8,7 +8,7 @@ CONSTANTS
   MaxLen = 0
   PairIds = {5, 10}
   CfgIds = {1, 2, 4, 8, 9, 10, 15}
-  Stride = 10
+  Stride = 6
 INIT Init
 NEXT Next
 INVARIANTS DirectThm RCThm RotThm ResThm SoundThm BoundsThm BudgetThm FlankThm CircThm VerdictThm Export
